@@ -225,6 +225,8 @@ def run_check(prop, tier, seed, replay=None):
                 samples.append({"op": op[:200], "impl": il[:240]})
         for v in prop.relation(ops, impl):
             violations.append(v)
+        if hasattr(prop, "nontrivial_all"):
+            nontriv |= set(prop.nontrivial_all(ops, impl))
         for c in crashed:
             notes.append("evaluator crash: %r" % (c,))
             if c[0] == "impl":
@@ -252,6 +254,22 @@ def run_check(prop, tier, seed, replay=None):
                                 pass
                 if p.returncode != 0:
                     notes.append("sweep %r exited with %d: %s" % (args, p.returncode, p.stderr[-300:]))
+
+    # ---- 3b. the proof obligations are not discharged: search harder for a failing input ------
+    if (not proof_ok or proof_problem) and hbin is not None and not violations and tier == "quick" and not replay \
+            and os.environ.get("VERIF_SEARCH", "1") != "0" and os.path.exists(C.DRIVER_BIN):
+        try:
+            ops2 = prop.gen("thorough", C.Rng(seed + 1))
+            impl2, model2, _ = C.run_both(hbin, ops2, pid + "s")
+            evaluations += len(ops2)
+            for op, il, ml in zip(ops2, impl2, model2):
+                pi, pm = prop.project(op, il), prop.project(op, ml)
+                if pi is not None and pm is not None and pi != pm:
+                    violations.append(Violation("projection", op, il, ml, "search after failed proof: impl=%r model=%r" % (pi, pm)))
+            violations.extend(prop.relation(ops2, impl2))
+            notes.append("proof obligations not discharged: searched %d further cases at the thorough tier" % len(ops2))
+        except Exception as e:
+            notes.append("search after failed proof raised %r" % (e,))
 
     # ---- 4. classify --------------------------------------------------------------------------
     # de-duplicate by key
